@@ -441,6 +441,7 @@ type Contract struct {
 	Lets     []letDef
 	Skip     map[string]bool // obligation kinds not claimed for this function (reported)
 	Notes    []string
+	Unfold   []Expr
 }
 
 type letDef struct {
@@ -475,7 +476,7 @@ func newContractSet() *ContractSet {
 var clauseKeywords = map[string]bool{
 	"func": true, "props": true, "requires": true, "ensures": true, "modifies": true, "assume-ensures": true,
 	"pure": true, "trusted": true, "maypanic": true, "deadpoints": true, "loop": true, "site": true, "let": true,
-	"define": true, "global": true, "ghost": true, "skip": true, "note": true, "package": true, "thorough": true,
+	"define": true, "global": true, "ghost": true, "unfold": true, "skip": true, "note": true, "package": true, "thorough": true,
 }
 
 // parseContractFile reads a contract file. pkgPrefix is prepended to function
@@ -681,6 +682,15 @@ func (cs *ContractSet) parseContractFile(path, pkgPath string, goFile bool) erro
 				}
 			case "note":
 				cur.Notes = append(cur.Notes, rest)
+			case "unfold":
+				// unfold framei(init, R, o, n, B): at each call site the engine
+				// states the first 16 unfoldings (ground instances of the prelude's
+				// recursive definition) so that callers can reason about short lists
+				e, err := parseExpr(rest)
+				if err != nil {
+					return fail(err)
+				}
+				cur.Unfold = append(cur.Unfold, e)
 			case "let":
 				k := strings.Index(rest, "=")
 				if k < 0 {
